@@ -35,7 +35,7 @@ ASSUMPTIONS = ['crash model: process death between audited file operations and t
 BUDGET = {'quick': 90, 'thorough': 1500}
 EXHAUSTIVE = {'quick': True, 'thorough': True}
 
-KINDS = ['json_dict', 'json_list', 'str', 'int', 'numpy', 'pandas', 'generator', 'lazy', 'listnp', 'dir', 'continues', 'empty_gen', 'empty_listnp', 'empty_dir']
+KINDS = ['json_dict', 'json_list', 'str', 'int', 'numpy', 'pandas', 'generator', 'lazy', 'listnp', 'dir', 'continues', 'empty_gen', 'empty_listnp', 'empty_dir', 'figure']
 RAISE_KINDS = {
     'json_dict': ['raise_before', 'raise_after_log', 'bad_type', 'unserializable'],
     'json_list': ['raise_before', 'raise_after_log', 'bad_type', 'unserializable'],
